@@ -343,7 +343,32 @@ func runSeqhash(w *mon.W, c05 bool) {
 			alpha = oracle.IUPACCodes
 		}
 		var s string
-		switch r.Intn(5) {
+		switch r.Intn(6) {
+		case 5:
+			if r.Intn(2) == 0 {
+				// arms that are reverse complements of each other around one central base (operators, snap-back templates),
+				// arm lengths at and next to the multiples of 32 and 64
+				arm := []int{31, 32, 33, 63, 64, 65, 127, 128, 129, 191, 192, 256, 1 + r.Intn(300)}[r.Intn(13)]
+				x := randString(r, alpha, arm)
+				s = x + randString(r, "ACGT", 1) + oracle.MustRevComp(x)
+				w.Add("reverse_complementary_arms_around_one_base", 1)
+			} else {
+				// a homopolymer ring with one interrupting letter (a poly-A mini-circle with a marker), 2..400 letters,
+				// written so that the interrupter stands at, or next to, either end of the text
+				n2 := 2 + r.Intn(399)
+				if r.Intn(2) == 0 {
+					n2 = 90 + r.Intn(40)
+				}
+				pair := []string{"AC", "AT", "CG", "CA", "TA", "GT"}[r.Intn(6)]
+				b := []byte(strings.Repeat(pair[:1], n2))
+				pos := []int{n2 - 1, n2 - 2, n2 - 3, 0, 1, 2, r.Intn(n2)}[r.Intn(7)]
+				if pos < 0 {
+					pos = 0
+				}
+				b[pos] = pair[1]
+				s = string(b)
+				w.Add("interrupted_homopolymer_rings", 1)
+			}
 		case 4:
 			// an element that holds the least rotation's start (it begins with a run of A) occurs twice on the
 			// molecule, in the same or in opposite orientation, with different neighbours (insertion sequences,
@@ -375,6 +400,9 @@ func runSeqhash(w *mon.W, c05 bool) {
 			s = randString(r, alpha, n)
 		}
 		s = randCase(r, s, []float64{0, 0.5, 1}[r.Intn(3)])
+		if r.Intn(6) == 0 {
+			s = caseEdges(r, s)
+		}
 		w.Max("max_length", int64(len(s)))
 		w.Begin(id, s)
 		for f := 0; f < 4; f++ {
